@@ -1,6 +1,6 @@
 """Configuration of ./check for C06 (see tools/props.py)."""
 ENTRY = {'coq_dir': 'C06',
- 'coq_deps': ['Mgr', 'C10', 'Tcp', 'Ts'],
+ 'coq_deps': ['Mgr', 'C10', 'Tcp', 'Ts', 'C07', 'Link'],
  'model_files': ['Glue'],
  'harness': 'c05',
  'harness_extra': '--focus limits',
@@ -74,10 +74,16 @@ ENTRY = {'coq_dir': 'C06',
                'theorems: an established connection never reuses a live id (the transports draw ids from one shared counter), a close notice names '
                'the owning peer and follows the accept future (discharged for the node by C07_node_feeds_manager). Composition with C08: the '
                "protocol is told Established only for a connection of the manager's ledger and once per id, and the manager's Closed / failed accept "
-               'arrive after the protocol was told (C07_order, C07_accept_each_once, C07_node_no_rollback). Not modelled: WebRTC sockets; QUIC '
-               "sockets only in the thorough tier's aux stream (real QuicTransport pairs) and by the shape of its accept/reject bodies, the scores "
-               'of the address store (C10). Observation outside the property text: ConnectionLimits::new calls HashSet::with_capacity(max), so a '
-               "maximum of usize::MAX panics with 'capacity overflow' when the node is built (not produced by the harness).",
+               'arrive after the protocol was told - no longer cited by name (C07_order, C07_accept_each_once, C07_node_no_rollback) but FORMALLY '
+               "LINKED (coq/Link/C07_C06.v): every run of C07's node model, projected to what protocol i is told, satisfies the constraints `xok` of "
+               "the composition (C06_C08_xtrace_on_node), hence C08's `feasible 2` holds for the TransportService of protocol i of a node "
+               '(C06_C08_feasible_on_node; C08_stream_wellformed_on_node, C08_alternation_on_node). Left as hypotheses there: env_ok for the events '
+               'the TRANSPORTS deliver to the manager (node_env_trace), GLOBAL freshness of the connection ids they announce (fresh_ids: never the '
+               'same id twice - the shared counter, C05_sys2_counters_in_step; env_ok itself only asks that the id is not live, and C08 needs `never '
+               'used before`), and that protocol i itself does not exit (no_die i). Not modelled: WebRTC sockets; QUIC sockets only in the thorough '
+               "tier's aux stream (real QuicTransport pairs) and by the shape of its accept/reject bodies, the scores of the address store (C10). "
+               'Observation outside the property text: ConnectionLimits::new calls HashSet::with_capacity(max), so a maximum of usize::MAX panics '
+               "with 'capacity overflow' when the node is built (not produced by the harness).",
  'trusted_base': ['uniqueness of connection ids across transports (one shared atomic counter in the code) is an assumption of the manager theorems '
                   '(env_ok)',
                   'real-socket stream: "stays open" of an accepted connection is observed for 150 ms after the accept and again at the end of the '
@@ -87,7 +93,9 @@ ENTRY = {'coq_dir': 'C06',
  'assumptions': ['manager stream: two installed transports at most (TCP, WebSocket); QUIC only in the socket stream of the thorough tier; webrtc not '
                  'driven',
                  'usize counters do not wrap',
-                 'limit configurations: None, Some 0, small (the theorems hold for every N; the harness produces None and 0..5)'],
+                 'limit configurations: None, Some 0, small (the theorems hold for every N; the harness produces None and 0..5)',
+                 'composition with C08 on a node (C06_C08_xtrace_on_node): env_ok for transport-delivered events, connection ids never announced '
+                 'twice (fresh_ids), the observed protocol stays alive'],
  'clause_map': [['at any moment the node keeps at most two established connections per remote peer',
                  'C06_two_per_peer (ledger), C06_peer_slots_at_most_two + C06_peer_table + C06_peer_refused_iff (PeerState with records), '
                  'C06_per_peer_rule, C06_protocol_holds_at_most_two + C06_provides_C08_feasible (what protocols see)',
